@@ -22,6 +22,7 @@ package html
 //@   ensures[S]  result ==> l.r.pos + len(b) <= len(l.r.buf)-1
 //@   ensures[F]  result ==> forall(k, 0, len(b), l.r.buf[l.r.pos+k] == b[k])
 //@   ensures[F]  @nonzero: result ==> forall(k, l.r.pos, l.r.pos + len(b), l.r.buf[k] != 0)
+//@   ensures[F]  @mismatch: !result ==> exists(k, 0, len(b), l.r.buf[l.r.pos+k] != b[k])
 //@   loop 1 invariant -1 <= rangeindex && rangeindex < len(b) && l.r.pos + rangeindex + 1 <= len(l.r.buf)-1
 //@   loop 1 invariant[F] forall(j, 0, rangeindex+1, l.r.buf[l.r.pos+j] == b[j])
 //@   loop 1 invariant[F] forall(q, l.r.pos, l.r.pos+rangeindex+1, l.r.buf[q] != 0)
@@ -209,8 +210,12 @@ package html
 //@   ensures[S]  result != nil && result.r == r && !result.inTag && result.rawTag == 0
 
 // ---- util.go (C17): the output buffer is sized exactly: len(b) + 2 quotes + 4 extra bytes per escaped quote
+// characters that may not occur in an unquoted attribute value (HTML syntax): ASCII whitespace, quotes, backtick, = < >
+//@ pred needsQuote(c) := c == '\t' || c == '\n' || c == '\f' || c == '\r' || c == ' ' || c == '"' || c == '\'' || c == '`' || c == '=' || c == '<' || c == '>'
 //@ func EscapeAttrVal
 //@   requires[S] buf != nil && disjoint(b, deref(buf))
+//@   ensures[F,C17] @table: charTable['\t'] && charTable['\n'] && charTable['\f'] && charTable['\r'] && charTable[' '] && charTable['"'] && charTable['\''] && charTable['`'] && charTable['='] && charTable['<'] && charTable['>']
+//@   ensures[F,C17] @unquoted-safe: sameSlice(result, b) ==> forall(k, 0, len(b), !needsQuote(b[k]))
 //@   requires[F] disjoint(deref(buf), singleQuoteEntityBytes) && disjoint(deref(buf), doubleQuoteEntityBytes)
 //@   ensures[S]  len(result) >= len(b)
 //@   ensures[F,C17] @no-raw-quote: !sameSlice(result, b) ==> forall(k, 1, len(result)-1, result[k] != result[0])
